@@ -30,6 +30,7 @@ import PV.Spec.FirstOcc
 import PV.Spec.Base64
 import PV.Model.Cleaning
 import PV.Model.BufStream
+import PV.Model.Tools2
 import PV.Model.CleaningThresholds
 /-
 One function per unit: `List String` (the operation's arguments) to one output line.
@@ -327,6 +328,18 @@ def tools (op : String) (args : List String) : String :=
       "ok" ++ String.join ((PV.Tools.shard (PV.Tools.shardKey rs dl) n (recs input)).map (fun f => " " ++ unl f))
     | _, none, _, _ => "ERR:badfield"
     | _, _, _, _ => "bad-op"
+  | "b64number", [h] =>
+    match unhex h with
+    | some input => match PV.Tools2.base64Number (recs input) with
+      | some out => s!"ok {unl out}"
+      | none => "ERR:notb64"
+    | none => "bad-op"
+  | "vocab", [h] =>
+    match unhex h with
+    | some input => match PV.Tools2.vocab input with
+      | some out => s!"ok {hex out}"
+      | none => "DIVERGED"
+    | none => "bad-op"
   | "shardnames", [p, n] =>
     match n.toNat? with
     | some n => "ok " ++ " ".intercalate (PV.Tools.shardNames p n)
